@@ -5,6 +5,7 @@
 package wire
 
 import (
+	"os"
 	"golibcheck/internal/bits"
 	"golibcheck/internal/paths"
 	"fmt"
@@ -718,10 +719,30 @@ func (w *walker) stmt(s ast.Stmt, rest []ast.Stmt) (nodes []Node, stop bool) {
 			arms = append(arms, arm{cl.List, body, cl.Pos()})
 		}
 		_ = hasDef
-		var chain []Node = def
-		for i := len(arms) - 1; i >= 0; i-- {
-			a := arms[i]
-			chain = []Node{&If{Pos: a.pos, Case: &CaseCond{Tag: v.Tag, Vals: a.vals}, Then: a.body, Else: chain, Fn: w.c}}
+		mkChain := func(tag ast.Expr) []Node {
+			var chain []Node = def
+			for i := len(arms) - 1; i >= 0; i-- {
+				a := arms[i]
+				chain = []Node{&If{Pos: a.pos, Case: &CaseCond{Tag: tag, Vals: a.vals}, Then: a.body, Else: chain, Fn: w.c}}
+			}
+			return chain
+		}
+		chain := mkChain(v.Tag)
+		// the tag is a local that holds a field except where one test replaced it by a constant
+		// (ver := this.Version; if C { ver = 1 }; switch ver {...}): under C the arm of that constant
+		// runs, otherwise the switch is on the field
+		if v.Tag != nil {
+			if base, cond, k := w.overrideLocal(v.Tag); cond != nil {
+				var under []Node = def
+				for _, a := range arms {
+					for _, val := range a.vals {
+						if tv, ok := w.c.Info.Types[val]; ok && tv.Value != nil && constant.Compare(constant.ToInt(tv.Value), token.EQL, k) {
+							under = a.body
+						}
+					}
+				}
+				chain = []Node{&If{Pos: v.Pos(), Cond: cond, Then: under, Else: mkChain(base), Fn: w.c}}
+			}
 		}
 		if hasEvents(chain) || hasControl(chain) {
 			out = append(out, chain...)
@@ -1483,6 +1504,16 @@ func (w *walker) call(v *ast.CallExpr, out *[]Node, outer bool, bind interface{}
 					}
 				}
 			}
+			// a local holding a field except where one test replaced it by a constant
+			if p.Const == nil && len(v.Args) == 1 {
+				if base, cond, k := w.overrideLocal(v.Args[0]); cond != nil {
+					pt, pf := *p, *p
+					pt.Const, pt.Label = k, ""
+					pf.Arg, pf.Label = base, w.x.canonLabel(w.c, base)
+					*out = append(*out, &If{Pos: v.Pos(), Cond: cond, Then: []Node{&pt}, Else: []Node{&pf}, Fn: w.c})
+					return
+				}
+			}
 			// a tag local set from one test (`var tag byte; if C { tag = 6 }; out.WriteByte(tag)`):
 			// the write stands for `if C { WriteByte(6) } else { WriteByte(0) }`
 			if p.Const == nil && len(v.Args) == 1 {
@@ -2169,4 +2200,95 @@ func (w *walker) flagCond(c ast.Expr) ast.Expr {
 		w.c.Info.Types[n.X] = t
 	}
 	return n
+}
+
+// overrideLocal: e is a local defined once from a field of the receiver (x := this.F) and assigned
+// exactly once more, a constant K, directly in the body of an `if C { x = K }` without else at the top
+// level of the function: the field expression, the condition and K. (cond == nil: not such a local.)
+func (w *walker) overrideLocal(e ast.Expr) (ast.Expr, ast.Expr, constant.Value) {
+	id, ok := ast.Unparen(stripConv(w.c, e)).(*ast.Ident)
+	if !ok || w.c.FI == nil || w.c.FI.Decl.Body == nil {
+		return nil, nil, nil
+	}
+	info := w.c.Info
+	obj := info.ObjectOf(id)
+	if obj == nil || !isLocalVar(obj) {
+		return nil, nil, nil
+	}
+	var base, cond ast.Expr
+	var k constant.Value
+	nBase, nOver, other := 0, 0, 0
+	assigns := func(n ast.Node) int {
+		c := 0
+		ast.Inspect(n, func(m ast.Node) bool {
+			switch v := m.(type) {
+			case *ast.AssignStmt:
+				for _, l := range v.Lhs {
+					if lid, ok := l.(*ast.Ident); ok && info.ObjectOf(lid) == obj {
+						c++
+					}
+				}
+			case *ast.IncDecStmt:
+				if lid, ok := v.X.(*ast.Ident); ok && info.ObjectOf(lid) == obj {
+					c++
+				}
+			}
+			return true
+		})
+		return c
+	}
+	for _, st := range w.c.FI.Decl.Body.List {
+		switch v := st.(type) {
+		case *ast.AssignStmt:
+			for i, l := range v.Lhs {
+				lid, ok := l.(*ast.Ident)
+				if !ok || info.ObjectOf(lid) != obj {
+					continue
+				}
+				if len(v.Lhs) == len(v.Rhs) && (v.Tok == token.DEFINE || v.Tok == token.ASSIGN) && isFieldLabel(w.x.canonLabel(w.c, v.Rhs[i])) {
+					base = v.Rhs[i]
+					nBase++
+				} else {
+					other++
+				}
+			}
+		case *ast.IfStmt:
+			n := assigns(v)
+			if n == 0 {
+				continue
+			}
+			if n == 1 && v.Else == nil && v.Init == nil {
+				for _, bs := range v.Body.List {
+					as, ok := bs.(*ast.AssignStmt)
+					if !ok || len(as.Lhs) != 1 || len(as.Rhs) != 1 || as.Tok != token.ASSIGN {
+						continue
+					}
+					if lid, ok := as.Lhs[0].(*ast.Ident); ok && info.ObjectOf(lid) == obj {
+						if tv, ok := info.Types[as.Rhs[0]]; ok && tv.Value != nil {
+							cond, k = v.Cond, constant.ToInt(tv.Value)
+							nOver++
+						}
+					}
+				}
+				if cond == nil {
+					other++
+				}
+			} else {
+				other += n
+			}
+		default:
+			other += assigns(st)
+		}
+	}
+	if nBase != 1 || nOver != 1 || other != 0 || base == nil || cond == nil {
+		return nil, nil, nil
+	}
+	// inside the condition the local still holds the field
+	if c2, ok := paths.Subst(info, cond, map[types.Object]ast.Expr{obj: base}).(ast.Expr); ok {
+		cond = c2
+	}
+	if os.Getenv("WIRE_DEBUG") != "" {
+		fmt.Fprintf(os.Stderr, "overrideLocal %s: base=%s cond=%s k=%s\n", id.Name, types.ExprString(base), types.ExprString(cond), k)
+	}
+	return base, cond, k
 }
